@@ -763,7 +763,7 @@ pub fn base_specs(tier: crate::ctx::Tier) -> Vec<(u64, u64, Vec<i64>, i64)> {
             (0, 1, vec![], -1),
             (MAXB - 5, 5, vec![-5], MAXB as i64),
             (12345, 678, vec![100, -100, 45], -678),
-            (1 << 62, 1 << 62, vec![], -(1i64 << 62)),
+            (1 << 62, 1 << 62, vec![], -((1i64 << 62) - 1)),
             (77, 0, vec![7, 7, 7], 56),
         ]);
     }
@@ -787,6 +787,15 @@ pub fn run(c: &mut Ctx) {
             Err(e) => return c.inconclusive(&e),
         };
         for (bi, (cust, merch, hist, a)) in base_specs(c.tier).into_iter().enumerate() {
+            // a base only makes sense when the ideal ledger accepts its history and the attacked amount
+            let mut bal = Some((cust, merch));
+            for x in hist.iter().chain(std::iter::once(&a)) {
+                bal = bal.and_then(|(cc, mm)| ledger_apply(cc, mm, *x).ok());
+            }
+            if bal.is_none() {
+                c.note(&format!("base{}_skipped", bi), json!("history or attacked amount out of range by the ideal ledger"));
+                continue;
+            }
             let ngroups = 6usize;
             for g in 0..ngroups {
                 let name = format!("m{}/base{}/group{}", mi, bi, g);
